@@ -436,3 +436,59 @@ Definition check_balance (ws : list Z) (p : list N) (k : N) (max_iter : nat) : b
   let tot := sumZ ws in
   let bound := Z.of_N k * (Z.of_nat max_iter + 1) * maxZ ws in
   forallb (fun j => Z.abs (Z.of_N k * loadZ ws p (N.of_nat j) - tot) <? bound) (seq 0 (N.to_nat k)).
+
+(* ---- a NECESSARY condition of the jagged hierarchy, decidable from ids and
+   coordinates alone (no candidate tree): any two parts are separated along one
+   of the axes the scheme cuts along — their lowest common slab level puts all
+   of one before all of the other.  [check_separated = false] therefore means
+   that NO JaggedTree of the scheme's shape exists for these ids
+   (Proofs/MultiJaggedSep.v), whatever the numbering of the leaves. ---- *)
+Section Separation.
+  Variable B : Type.
+  Variable D : nat.
+  Variable cxlt : nat -> nat -> nat -> bool.
+  Variable idf : nat -> N.
+
+  (* number of cutting levels *)
+  Fixpoint sch_depth (s : scheme B) : nat :=
+    match s with
+    | SNode ns _ next =>
+      if (ns =? 0)%N then 0%nat
+      else S match next with
+             | None => 0%nat
+             | Some cs => (fix mx (l : list (scheme B)) : nat :=
+                             match l with [] => 0%nat | c :: t => Nat.max (sch_depth c) (mx t) end) cs
+             end
+    end.
+
+  (* the axes of levels 0 .. d-1 starting from axis a *)
+  Fixpoint level_axes (a d : nat) : list nat :=
+    match d with O => [] | S d' => a :: level_axes (S a mod D)%nat d' end.
+
+  (* some element of l that no other element of l exceeds along a (the maximum for a total order) *)
+  Definition rep_max (a : nat) (l : list nat) : option nat :=
+    match l with [] => None | x :: t => Some (fold_left (fun m y => if cxlt a m y then y else m) t x) end.
+  Definition rep_min (a : nat) (l : list nat) : option nat :=
+    match l with [] => None | x :: t => Some (fold_left (fun m y => if cxlt a y m then y else m) t x) end.
+
+  (* "every coordinate of P is at most every coordinate of Q", tested on the extremes *)
+  Definition before_b (a : nat) (P Q : list nat) : bool :=
+    match rep_max a P, rep_min a Q with
+    | Some x, Some y => negb (cxlt a y x)
+    | _, _ => true
+    end.
+
+  Definition parts_separated (axes : list nat) (P Q : list nat) : bool :=
+    match P, Q with
+    | [], _ | _, [] => true
+    | _, _ => existsb (fun a => before_b a P Q || before_b a Q P) axes
+    end.
+
+  Fixpoint all_ord_pairs {T} (f : T -> T -> bool) (l : list T) : bool :=
+    match l with [] => true | x :: t => forallb (f x) t && all_ord_pairs f t end.
+
+  Definition check_separated (sch : scheme B) (n k : nat) : bool :=
+    let axes := level_axes 0 (sch_depth sch) in
+    let groups := map (fun b => filter (fun i => (idf i =? N.of_nat b)%N) (seq 0 n)) (seq 0 k) in
+    all_ord_pairs (parts_separated axes) groups.
+End Separation.
